@@ -215,7 +215,7 @@ def verify_contract(reg, c, timeout_ms=10000, feas_timeout_ms=2000, canary=True,
                     declared = exc
                     break
             if declared is not None:
-                t = eng.spec_old_clause(c.raises[declared], penv, c)
+                t = eng.spec_old_clause(c.raises[declared], penv, c, polarity=1)
                 eng.prove(f'{c.vname}::raises[{declared}](only when)', t, line=line)
             elif any(issubclass(ex.cls, eng.exc_class(x, c)) for x in c.may_raise):
                 pass
@@ -224,11 +224,11 @@ def verify_contract(reg, c, timeout_ms=10000, feas_timeout_ms=2000, canary=True,
             # exceptional exits still respect the frame unless stated otherwise
         return p
 
-    def spec_old_clause(cond, penv, cc):
+    def spec_old_clause(cond, penv, cc, polarity=-1):
         saved = eng.p.heap
         eng.p.heap = dict(eng.old[0])
         try:
-            return eng.eval_clause(cond, env=penv, contract=cc)
+            return eng.eval_clause(cond, env=penv, contract=cc, polarity=polarity)
         finally:
             eng.p.heap = saved
     eng.spec_old_clause = spec_old_clause
